@@ -217,6 +217,13 @@ class SafeRepresenter(BaseRepresenter):
         return self.represent_scalar('tag:yaml.org,2002:timestamp', value)
 
     def represent_datetime(self, data):
+        offset = data.utcoffset()
+        if offset is not None and (offset.seconds % 60 or offset.microseconds):
+            # A YAML timestamp carries its UTC offset as [+-]HH:MM.  isoformat()
+            # renders an offset that has seconds (e.g. the LMT zones of zoneinfo)
+            # as [+-]HH:MM:SS, which is not a timestamp and cannot be loaded
+            # back, so write the same instant in UTC.
+            data = data.astimezone(datetime.timezone.utc)
         value = data.isoformat(' ')
         return self.represent_scalar('tag:yaml.org,2002:timestamp', value)
 
